@@ -21,14 +21,17 @@ def spec(name, layout, dst1, dst2, queue=True, skip=False, depth=None, **kw):
     return s
 
 
-def queued_spec(layout, dst1, dst2, depth):
-    """Starts with both pull requests in the queue; CI then reports on the
-    queue as a whole or fails single queue branches."""
-    return spec('c02-q-%s-queued' % layout, layout, dst1, dst2, depth=depth,
+def queued_spec(layout, dst1, dst2, depth, order=(1, 2)):
+    """Starts with both pull requests in the queue (entered in `order`); CI
+    then reports on the queue as a whole or fails single queue branches."""
+    return spec('c02-q-%s-queued%s' % (
+        layout, '' if dst1 == dst2 else '-%s-%d%d' % (
+            dst2.split('/')[1], order[0], order[1])),
+        layout, dst1, dst2, depth=depth,
                 config={'layout': layout, 'queue': True, 'skip_queue': False,
                         'options': BYPASS_REVIEW + ['bypass_build_status']},
                 init=[['open', PR1, dst1], ['open', PR2, dst2],
-                      ['eval_pr', 1], ['eval_pr', 2]],
+                      ['eval_pr', order[0]], ['eval_pr', order[1]]],
                 statuses_int=[], statuses_q=['SUCCESSFUL', 'FAILED'],
                 per_q_ci=True)
 
@@ -53,6 +56,9 @@ def specs(tier):
                      depth=4),
                 behind_failed_spec(1),
                 queued_spec('D2', 'development/4.3', 'development/4.3', 3),
+                # the older entry has the shorter cascade
+                queued_spec('D2', 'development/4.3', 'development/5.1', 2,
+                            order=(2, 1)),
                 spec('c02-noq-S3', 'S3', 'stabilization/4.3.18',
                      'stabilization/4.3.18', queue=False, depth=4,
                      init=[['open', PR1, 'stabilization/4.3.18'],
@@ -74,6 +80,10 @@ def specs(tier):
                          'options': BYPASS_REVIEW + ['bypass_build_status']}),
             queued_spec('D3', 'development/4.3', 'development/4.3', 5),
             queued_spec('D3', 'development/4.3', 'development/5.1', 5),
+            queued_spec('D3', 'development/4.3', 'development/5.1', 5,
+                        order=(2, 1)),
+            queued_spec('D3', 'development/5.1', 'development/10.0', 5,
+                        order=(2, 1)),
             spec('c02-q-S3', 'S3', 'stabilization/4.3.18', 'development/4.3',
                  depth=7),
             spec('c02-noq-S3', 'S3', 'stabilization/4.3.18',
